@@ -37,6 +37,19 @@ func checkC10(p *Prog, r *Report) {
 		r.OK(kp("STATE", "hidden-state-channel#none"), "no memory outside the KV stores is both written and read back by block-processing code", "x/*",
 			fmt.Sprintf("%d functions in scope; %d writes to long-lived memory outside init (write-only), 0 locations written and read", len(scope), len(writes)))
 	}
+	// D1b objects outside the module consulted without a Context: what they answer is process memory, not committed state
+	{
+		bad, allowed := contextFreeForeignCalls(p, scope)
+		for _, fc := range bad {
+			r.Fail(kp("STATE", "context-free-foreign-object:"+fc.Loc+"→"+fc.Name+"@"+FuncName(fc.Fn)), "everything block processing depends on is in a committed store: objects implemented outside the module are consulted with a Context (reviewed exceptions: the codecs, the params subspace table)", p.Pos(fc.Instr.Pos()),
+				fmt.Sprintf("%s calls %s on %s (a %s held by a long-lived struct) without a Context: the answer is not read from a committed store at the current block, it lives in the process (a value set by an earlier block is gone after a restart, so a restarted node processes the next block differently from one that kept running)", FuncName(fc.Fn), fc.Name, fc.Loc, fc.Recv))
+		}
+		if len(bad) == 0 {
+			r.OK(kp("STATE", "context-free-foreign-object#none"), "everything block processing depends on is in a committed store: objects implemented outside the module are consulted with a Context (reviewed exceptions: the codecs, the params subspace table)", "x/*, app/*",
+				fmt.Sprintf("%d functions in scope; %d context-free calls on held foreign objects, all on reviewed receiver types", len(scope), len(allowed)))
+		}
+		r.Floor("context-free-calls-on-reviewed-foreign-objects", len(allowed), 5)
+	}
 	for _, w := range writes {
 		if _, isCh := channels[w.Loc]; !isCh {
 			r.Note("write-only long-lived location %s (%s) — not a state channel", w.Loc, describeAccess(p, w))
@@ -95,6 +108,11 @@ func checkC10(p *Prog, r *Report) {
 			pkg := ku.Callee[:strings.LastIndex(ku.Callee, ".")]
 			root = pkg + ".Keeper." + field
 		}
+		if field == "<unused parameter>" {
+			r.OK(key, "a store key that is not created must never be used to open a store", p.Pos(ku.Pos),
+				fmt.Sprintf("keys[%q] does not exist (nil) and %s ignores that parameter", ku.Name, ku.Callee))
+			continue
+		}
 		if root != "" && !usedRoots[root] {
 			r.OK(key, "a store key that is not created must never be used to open a store", p.Pos(ku.Pos),
 				fmt.Sprintf("keys[%q] does not exist (nil) but the field %s it is stored in is never passed to ctx.KVStore", ku.Name, root))
@@ -131,44 +149,7 @@ func checkC10(p *Prog, r *Report) {
 			r.Check(ok, kp("WIRE", "GetKVStoreKey=keys"), "the mounted map is the map the keepers took their keys from", p.FnPos(gk), "returns appKeepers.keys", "GetKVStoreKey does not return the keys map")
 		}
 	}
-	// D2b persistent stores only: nothing of type *MemoryStoreKey / *TransientStoreKey is handed to the module's own keepers, and the
-	// module's keepers never open a transient store. A memory store is empty after every restart and a transient store after every
-	// commit, so state kept there differs between a restarted node and one that kept running.
-	nArgs, nCtl := 0, 0
-	for _, fn := range p.ModFuncs {
-		if InPkgs(fn, "types/testsuite") {
-			continue
-		}
-		for _, cs := range callSites(fn) {
-			if strings.HasSuffix(cs.Name, "types.Context).TransientStore") && !InPkgs(fn, "app") {
-				r.Fail(kp("STATE", "transient-store-use:"+FuncName(fn)), "module state lives in committed KV stores only", p.Pos(cs.Instr.Pos()),
-					FuncName(fn)+" opens a transient store: its content is dropped at every commit and is empty after a restart")
-			}
-			if (strings.HasSuffix(cs.Name, "types.NewMemoryStoreKey") || strings.HasSuffix(cs.Name, "types.NewTransientStoreKey")) && !InPkgs(fn, "app") {
-				r.Fail(kp("STATE", "non-persistent-key-created:"+FuncName(fn)), "module state lives in committed KV stores only", p.Pos(cs.Instr.Pos()),
-					FuncName(fn)+" creates a memory/transient store key")
-			}
-			if cs.Callee == nil || !InModule(cs.Callee) || InPkgs(cs.Callee, "app") {
-				for _, a := range cs.Instr.Common().Args {
-					if nonPersistentKeyType(a) != "" {
-						nCtl++ // control: SDK keepers (capability, params) do receive such keys
-					}
-				}
-				continue
-			}
-			for i, a := range cs.Instr.Common().Args {
-				nArgs++
-				if kind := nonPersistentKeyType(a); kind != "" {
-					r.Fail(kp("WIRE", fmt.Sprintf("non-persistent-key→%s#%d", FuncName(cs.Callee), i)), "module state lives in committed KV stores only", p.Pos(cs.Instr.Pos()),
-						fmt.Sprintf("%s is given a %s as argument %d: a store opened with it is not committed (memory stores are empty after a restart, transient stores after every block), so state kept there is lost by a node that restarts and kept by one that does not", FuncName(cs.Callee), kind, i))
-				}
-			}
-		}
-	}
-	r.Floor("arguments-to-module-functions-typed", nArgs, 500)
-	r.Floor("control:memory/transient-keys-handed-to-SDK-keepers", nCtl, 2)
-	r.OK(kp("WIRE", "non-persistent-keys#scan"), "module state lives in committed KV stores only", "app/, x/*",
-		fmt.Sprintf("%d arguments of calls into the module's own packages inspected: none is a *MemoryStoreKey or *TransientStoreKey (violations, if any, are listed separately)", nArgs))
+	checkPersistentStoresOnly(p, r, kp, "state kept there is lost by a node that restarts and kept by one that does not")
 
 	// D2c start-up writes nothing: an sdk.Context (the only way to reach a keeper) or a raw committed store is obtained only
 	// by block processing (baseapp supplies the context) and by the export command. Anything written through a context made
@@ -257,6 +238,18 @@ func constructorField(p *Prog, callee string, arg int) string {
 		return ""
 	}
 	prm := fn.Params[arg]
+	// a parameter the constructor does not use at all (kept for signature compatibility, `_ storetypes.StoreKey`)
+	unused := true
+	if refs := prm.Referrers(); refs != nil {
+		for _, rf := range *refs {
+			if _, isDbg := rf.(*ssa.DebugRef); !isDbg {
+				unused = false
+			}
+		}
+	}
+	if unused {
+		return "<unused parameter>"
+	}
 	if refs := prm.Referrers(); refs != nil {
 		for _, rf := range *refs {
 			switch x := rf.(type) {
@@ -316,4 +309,47 @@ func nonPersistentKeyType(v ssa.Value) string {
 		return ""
 	}
 	return walk(v.Type(), 0)
+}
+
+// checkPersistentStoresOnly (shared by C09, C10, C20): the module's keepers work on committed, versioned KV stores only.
+func checkPersistentStoresOnly(p *Prog, r *Report, kp func(string, string) string, consequence string) {
+	// D2b persistent stores only: nothing of type *MemoryStoreKey / *TransientStoreKey is handed to the module's own keepers, and the
+	// module's keepers never open a transient store. A memory store is empty after every restart and a transient store after every
+	// commit, so state kept there differs between a restarted node and one that kept running.
+	nArgs, nCtl := 0, 0
+	for _, fn := range p.ModFuncs {
+		if InPkgs(fn, "types/testsuite") {
+			continue
+		}
+		for _, cs := range callSites(fn) {
+			if strings.HasSuffix(cs.Name, "types.Context).TransientStore") && !InPkgs(fn, "app") {
+				r.Fail(kp("STATE", "transient-store-use:"+FuncName(fn)), "module state lives in committed KV stores only", p.Pos(cs.Instr.Pos()),
+					FuncName(fn)+" opens a transient store: its content is dropped at every commit and is empty after a restart")
+			}
+			if (strings.HasSuffix(cs.Name, "types.NewMemoryStoreKey") || strings.HasSuffix(cs.Name, "types.NewTransientStoreKey")) && !InPkgs(fn, "app") {
+				r.Fail(kp("STATE", "non-persistent-key-created:"+FuncName(fn)), "module state lives in committed KV stores only", p.Pos(cs.Instr.Pos()),
+					FuncName(fn)+" creates a memory/transient store key")
+			}
+			if cs.Callee == nil || !InModule(cs.Callee) || InPkgs(cs.Callee, "app") {
+				for _, a := range cs.Instr.Common().Args {
+					if nonPersistentKeyType(a) != "" {
+						nCtl++ // control: SDK keepers (capability, params) do receive such keys
+					}
+				}
+				continue
+			}
+			for i, a := range cs.Instr.Common().Args {
+				nArgs++
+				if kind := nonPersistentKeyType(a); kind != "" {
+					r.Fail(kp("WIRE", fmt.Sprintf("non-persistent-key→%s#%d", FuncName(cs.Callee), i)), "module state lives in committed KV stores only", p.Pos(cs.Instr.Pos()),
+						fmt.Sprintf("%s is given a %s as argument %d: a store opened with it is not committed (memory stores are empty after a restart, transient stores after every block), so %s", FuncName(cs.Callee), kind, i, consequence))
+				}
+			}
+		}
+	}
+	r.Floor("arguments-to-module-functions-typed", nArgs, 500)
+	r.Floor("control:memory/transient-keys-handed-to-SDK-keepers", nCtl, 2)
+	r.OK(kp("WIRE", "non-persistent-keys#scan"), "module state lives in committed KV stores only", "app/, x/*",
+		fmt.Sprintf("%d arguments of calls into the module's own packages inspected: none is a *MemoryStoreKey or *TransientStoreKey (violations, if any, are listed separately)", nArgs))
+
 }
